@@ -35,6 +35,10 @@ enum Case {
     Graph { bits: BitsDesc, path: Vec<Act> },
     SparseBare { bits: BitsDesc, width: u64 },
     WmBare { values: Vec<u64> },
+    /// A library-written sparse vector file whose bucket bitvector keeps only the supports in `mask`.
+    SparsePartial { bits: BitsDesc, mask: u8 },
+    /// A library-written wavelet matrix file whose level i keeps the supports in masks[i % len].
+    WmPartial { values: Vec<u64>, masks: Vec<u8> },
     Skip { desc: Desc, chunk: usize },
 }
 
@@ -256,6 +260,54 @@ fn wm_bare(ctx: &mut Ctx, values: &[u64]) {
     }
 }
 
+/// Embedded bitvectors with any SUBSET of their support structures (the supports are optional one by one).
+fn sparse_partial(ctx: &mut Ctx, bits: &BitsDesc, mask: u8) {
+    let c = Case::SparsePartial { bits: bits.clone(), mask };
+    let case = || serde_json::to_value(&c).unwrap();
+    ctx.announce(case);
+    let m = bits.model();
+    let built = sparse_from_model(&m).unwrap();
+    let file = spec::rewrite_sparse_supports(&to_bytes(&built), mask).expect("codec: cannot rewrite a library-written sparse file");
+    match guard(|| from_bytes::<SparseVector>(&file)) {
+        Ok(Ok(sv)) => {
+            let q = if m.len <= 64 { Queries::exhaustive(&m) } else { Queries::edges(&m, &[], &[16], 24, m.len <= 100_000) };
+            check_bitvec!(ctx, &sv, &m, "SparseVector(file with a subset of supports)", &q, case);
+        }
+        Ok(Err(e)) => {
+            ctx.require(|| "SparseVector.load[file with a subset of supports]".to_string(), false, case, || json!({"observed": format!("Err({})", e)}));
+        }
+        Err(msg) => ctx.panic_violation("SparseVector.load[file with a subset of supports]", &msg, None, case),
+    }
+}
+
+fn wm_partial(ctx: &mut Ctx, values: &[u64], masks: &[u8]) {
+    let c = Case::WmPartial { values: values.to_vec(), masks: masks.to_vec() };
+    let case = || serde_json::to_value(&c).unwrap();
+    ctx.announce(case);
+    let built = WaveletMatrix::from(values.to_vec());
+    let file = spec::rewrite_wm_supports(&to_bytes(&built), masks).expect("codec: cannot rewrite a library-written wavelet matrix file");
+    match guard(|| from_bytes::<WaveletMatrix>(&file)) {
+        Ok(Ok(wm)) => {
+            ctx.expect(|| "WaveletMatrix(file with subsets of supports).iter".to_string(), guard(|| wm.iter().collect::<Vec<u64>>()), &values.to_vec(), case);
+            let max = values.iter().copied().max().unwrap_or(0);
+            for v in 0..=max + 1 {
+                let occ: Vec<usize> = values.iter().enumerate().filter(|(_, &x)| x == v).map(|(i, _)| i).collect();
+                for i in 0..=values.len() {
+                    ctx.expect(|| "WaveletMatrix(file with subsets of supports).rank".to_string(), guard(|| wm.rank(i, v)), &occ.iter().filter(|&&p| p < i).count(), case);
+                }
+                for r in 0..=occ.len() {
+                    ctx.expect(|| "WaveletMatrix(file with subsets of supports).select".to_string(), guard(|| wm.select(r, v)), &occ.get(r).copied(), case);
+                }
+                ctx.expect(|| "WaveletMatrix(file with subsets of supports).predecessor".to_string(), guard(|| wm.predecessor(values.len(), v).next()), &occ.last().map(|&p| (occ.len() - 1, p)), case);
+            }
+        }
+        Ok(Err(e)) => {
+            ctx.require(|| "WaveletMatrix.load[file with subsets of supports]".to_string(), false, case, || json!({"observed": format!("Err({})", e)}));
+        }
+        Err(msg) => ctx.panic_violation("WaveletMatrix.load[file with subsets of supports]", &msg, None, case),
+    }
+}
+
 /// skip_option over [Some(x) or an Option value as serialized, sentinel]: the sentinel is read next.
 fn skip(ctx: &mut Ctx, d: &Desc, chunk: usize) {
     let c = Case::Skip { desc: d.clone(), chunk };
@@ -350,6 +402,40 @@ fn explore(ctx: &mut Ctx) {
             }
         }
     }
+    // Sparse vectors and wavelet matrices whose embedded bitvectors keep every SUBSET of their supports.
+    let pn = ctx.tier.pick(5, 7);
+    for len in 0..=pn {
+        for word in 0..(1u64 << len) {
+            let bits = BitsDesc::Word { len, word };
+            if !ctx.mine(&("sparse-partial", &bits)) {
+                continue;
+            }
+            for mask in 0..8u8 {
+                ctx.count("sparse_files_with_support_subsets", 1);
+                ctx.nontrivial(&("sparse-partial", &bits, mask));
+                sparse_partial(ctx, &bits, mask);
+            }
+        }
+    }
+    for bits in [BitsDesc::Letters(vec![Letter::Every(7, 700), Letter::Ones(70)]), BitsDesc::Runs { pairs: vec![(100, 30000), (29_000_000, 35536)], tail: 7 }] {
+        if ctx.mine(&("sparse-partial", &bits)) {
+            for mask in 0..8u8 {
+                ctx.count("sparse_files_with_support_subsets", 1);
+                sparse_partial(ctx, &bits, mask);
+            }
+        }
+    }
+    for v in [vec![1u64, 0, 1, 0], vec![3, 1, 4, 1, 5, 9, 2, 6], vec![0, 0, 0], vec![7, 7, 2]] {
+        if ctx.mine(&("wm-partial", &v)) {
+            for a in 0..8u8 {
+                for b in [0u8, 7, a ^ 5] {
+                    ctx.count("wm_files_with_support_subsets", 1);
+                    ctx.nontrivial(&("wm-partial", &v, a, b));
+                    wm_partial(ctx, &v, &[a, b]);
+                }
+            }
+        }
+    }
     // Wavelet matrices and cores from support-free files.
     let scopes: Vec<(usize, usize)> = if thorough { vec![(1, 8), (2, 5), (3, 4), (4, 3)] } else { vec![(1, 6), (2, 4), (3, 3), (4, 2)] };
     for (w, l) in scopes {
@@ -393,6 +479,8 @@ fn replay(ctx: &mut Ctx, v: &Value) {
         Case::Graph { bits, path } => graph(ctx, &bits, Some(&path)),
         Case::SparseBare { bits, width } => sparse_bare(ctx, &bits, width),
         Case::WmBare { values } => wm_bare(ctx, &values),
+        Case::SparsePartial { bits, mask } => sparse_partial(ctx, &bits, mask),
+        Case::WmPartial { values, masks } => wm_partial(ctx, &values, &masks),
         Case::Skip { desc, chunk } => skip(ctx, &desc, chunk),
     }
 }
